@@ -288,8 +288,8 @@ impl Prop for CliFaithful {
 
     fn runs(&self, tier: Tier) -> u64 {
         match tier {
-            Tier::Quick => 6_000,
-            Tier::Thorough => 150_000,
+            Tier::Quick => 30_000,
+            Tier::Thorough => 600_000,
         }
     }
 
